@@ -104,6 +104,12 @@ def parseSeen (t : String) : Option SeenReq :=
     | none => none
   | _ => none
 
+/-- does the request token say that the Session header named the id ("77", or "77;timeout=60" sent back untrimmed)? -/
+def carriedTok (t : String) : Bool :=
+  match t.splitOn ":" with
+  | [_, _, _, s, _] => s = "s" || s = "st"
+  | _ => false
+
 def parseOutcome : String → Option Outcome
   | "stream" => some .stream | "nil" => some .notFound | "hang" => some .hang | "panic" => some .panic
   | _ => none
@@ -167,7 +173,12 @@ def handle : List String → String
                          reg := kv ob "reg" = "1", sent := (kv ob "sent").toNat?.getD 0, delivered := (kv ob "delivered").toNat?.getD 0,
                          clean := kv ob "clean" = "1", cclosed := kv ob "cclosed" = "1", regAfter := kv ob "regafter" = "1",
                          cseqOk := kv ob "cseq" = "1", leak := kv ob "leak" = "1", afresh := kv ob "afresh" = "1" }
-        s!"model={model} verdict={verdict cfg script o}"
+        -- a camera that insists on its session id (strict=1) reports the answers it really gave (454 where the id was
+        -- missing): the specification judges the exchange as it happened; the model is asked about the script
+        let given := match allSome ((csv (kv ob "resps")).map parseResp) with
+          | some rs => if rs.isEmpty then script else rs
+          | none => script
+        s!"model={model} verdict={verdictS cfg given o ((csv (kv ob "reqs")).map carriedTok)}"
       | _, _ => s!"model={model} verdict=bad-observation"
     | _, _, _ => "bad-op"
   | "dualc" :: toks =>
